@@ -196,7 +196,7 @@ func vfGenCsumPuppetSpec(idx int, seed uint64) vfSpec {
 	sp.A = vfSideCfg{ZC: r.Intn(2) == 0, InitTSN: r.Uint32(), Tag: r.Uint32() | 1}
 	sp.Link = vfLinkCfg{DelayUs: 5000}
 	// variant of the peer's advertisement
-	sp.X = map[string]int64{"variant": int64(idx % 6), "active": int64((idx / 6) % 2)}
+	sp.X = map[string]int64{"variant": int64(idx % 9), "active": int64((idx / 9) % 2)}
 
 	return sp
 }
@@ -228,6 +228,14 @@ func vfRunCsumPuppet(t *testing.T, spec *vfSpec, res *vfRes) {
 			extra = append(vfTLV(0x8001, vfU32(9)), vfTLV(0x8001, vfU32(1))...)
 			allowed = true
 			desc = "duplicated parameter, last EDMID 1"
+		case 6:
+			extra = vfTLV(0x8001, vfU32(0x00010001))
+			desc = "EDMID 0x00010001"
+		case 7:
+			extra = vfTLV(0x8001, vfU32(0x80000001))
+			desc = "EDMID 0x80000001"
+		case 8:
+			desc = "no parameter, then a stale INIT with EDMID 1 once established"
 		}
 		// the advertisement reaches the endpoint in an INIT-ACK (endpoint is the client) or in an INIT (endpoint
 		// is the server)
@@ -243,6 +251,15 @@ func vfRunCsumPuppet(t *testing.T, spec *vfSpec, res *vfRes) {
 			return
 		}
 		a := sim.A()
+		if spec.x("variant", 0) == 8 {
+			// an INIT that has to be ignored (old incarnation of the peer, or off-path: INIT needs no verification
+			// tag) is not an advertisement by the peer of this association
+			val := vfU32(0x51515151, 1<<20, 0xffffffff, 77)
+			val = append(val, vfTLV(0x8008, []byte{vfCtReconfig, vfCtForwardTSN})...)
+			val = append(val, vfTLV(0x8001, vfU32(1))...)
+			_, _ = p.conn.Write(vfNewPacket(5000, 5000, 0).chunk(vfCtInit, 0, val).bytes(true))
+			time.Sleep(100 * time.Millisecond)
+		}
 		st, err := a.OpenStream(1, PayloadTypeWebRTCBinary)
 		if err == nil {
 			for i := 0; i < 5; i++ {
